@@ -44,10 +44,10 @@ func (c15) Info(tier string) fw.Info {
 	return fw.Info{
 		Level: "exploration",
 		Rule: "module graphs (entry `main` + up to 4 modules; every module declares a singleton, an edge function calling the edge functions it imports, and items named f, g, v, T reused across modules with tag-returning bodies `\"a.f(\" + v + \",\" + g() + \")\"`; " +
-			"functions append a mark to their module's private globals) are enumerated exhaustively within this bound: " + Bound(tier) + "; plus seeded random graphs with 3-5 modules beyond the bound. " +
+			"functions append a mark to their module's private globals; modules may also declare singletons `$K`, `$L` under names shared with other modules: every function of such a module appends its tag to the singleton's log and reads it back, through a singleton extraction parameter or through the expression `$K`) are enumerated exhaustively within this bound: " + Bound(tier) + "; plus seeded random graphs with 3-5 modules beyond the bound. " +
 			"Oracle: a model linker (name -> defining module by the import statements and pub only) predicts per import statement legal / private / missing item / missing module / cyclic and, for accepted graphs, the exact text printed. " +
 			"The analyzer must report an error on every illegal import statement (mentioning the item or module) and none on legal ones; accepted graphs run " + fmt.Sprint(reps(tier)) + " times on the VM (fresh Analyze+Compile each, module map re-inserted in rotating permutations) and once on the interpreter; " +
-			"every run must print the predicted text and load every reachable module's singleton exactly once before the first output. " +
+			"every run must print the predicted text (a function works on the globals and singletons of its defining module) and load every singleton of every reachable module exactly once before the first output. " +
 			"non-trivial = a reachable illegal import was judged, or an accepted graph with at least one import edge ran on both backends; distinct = distinct graph. " +
 			"While a finding listed in known_findings.txt is open, graphs carrying its hazard tag are replaced by a poisoned workload of at most " + fmt.Sprint(poisonQuota) + " graphs per family.",
 		Assumptions: []string{
@@ -323,6 +323,21 @@ func classify(want, got string) string {
 		if a[i] == b[i] {
 			continue
 		}
+		// inside a `[...]` log or on a `$K=` line: the state of a module's singleton
+		depth, lineStart := 0, 0
+		for j := 0; j < i; j++ {
+			switch a[j] {
+			case "[":
+				depth++
+			case "]":
+				depth--
+			case "\n":
+				lineStart = j + 1
+			}
+		}
+		if depth > 0 || a[i] == "[" || a[i] == "]" || a[lineStart] == "$" {
+			return "wrong-singleton-state"
+		}
 		am, an, ap, aok := splitTag(a[i])
 		bm, bn, bp, bok := splitTag(b[i])
 		if !aok || !bok {
@@ -359,10 +374,13 @@ func splitTag(t string) (mod, name string, primes int, ok bool) {
 	return t[:i], rest, len(t) - i - 1 - len(rest), true
 }
 
+var scopeDumpRe = regexp.MustCompile(`(?s)&\{\[map\[.*\]\}`)
+
 // judgeRun compares one execution with the model.
 func judgeRun(backend string, g *Graph, lk *Link, want string, effects []drive.Effect, oc drive.Outcome, checkInit bool, v *verdict, detail any) {
 	var out strings.Builder
 	loads := map[string]int{}
+	loadsIn := map[string]int{} // "ident@module" where the host is told the module (VM)
 	late := false
 	for _, e := range effects {
 		switch e.Kind {
@@ -371,6 +389,7 @@ func judgeRun(backend string, g *Graph, lk *Link, want string, effects []drive.E
 		case "singleton":
 			name := e.Text
 			if i := strings.Index(name, "@"); i >= 0 {
+				loadsIn[name]++
 				name = name[:i]
 			}
 			loads[name]++
@@ -382,16 +401,25 @@ func judgeRun(backend string, g *Graph, lk *Link, want string, effects []drive.E
 	got := out.String()
 	if oc.Class != "ok" {
 		sig := backend + ":outcome:" + oc.Class
+		how := oc.String()
 		if oc.Class == "go-panic" {
-			sig = backend + ":go-panic:" + util.NormPanic(oc.Message)
+			// the interpreter's panics dump its scope stack (`&{[map[name:0xc000…] …]}`): keep the text around it
+			short := scopeDumpRe.ReplaceAllString(oc.Message, "&{…}")
+			sig = backend + ":go-panic:" + util.NormPanic(short)
+			how = "a Go panic: " + short
 		} else if oc.Kind != "" {
 			sig += "/" + oc.Kind
 		}
-		v.fail(sig, fmt.Sprintf("%s: program ended with %s; printed so far:\n%s\n--- expected\n%s", backend, oc.String(), util.Clip(got, 800), util.Clip(want, 800)), detail)
+		v.fail(sig, fmt.Sprintf("%s: program ended with %s; printed so far:\n%s\n--- expected\n%s", backend, how, util.Clip(got, 800), util.Clip(want, 800)), detail)
 		return
 	}
 	if got != want {
-		v.fail(backend+":"+classify(want, got), fmt.Sprintf("%s printed\n%s--- the import statements say\n%s", backend, util.Clip(got, 1200), util.Clip(want, 1200)), detail)
+		class := classify(want, got)
+		hint := ""
+		if class == "wrong-singleton-state" {
+			hint = " (the first difference is in the log of a singleton: every function appends its tag to the `$K` of its defining module and reads that one back, whatever the calling module declares)"
+		}
+		v.fail(backend+":"+class, fmt.Sprintf("%s printed%s\n%s--- the import statements say\n%s", backend, hint, util.Clip(got, 1200), util.Clip(want, 1200)), detail)
 	}
 	if checkInit {
 		for _, mn := range lk.ReachSeq {
@@ -406,6 +434,35 @@ func judgeRun(backend string, g *Graph, lk *Link, want string, effects []drive.E
 				v.fail(backend+":init-twice", fmt.Sprintf("%s: module %s was initialised %d times (its singleton was loaded %d times)", backend, mn, n, n), detail)
 			}
 			delete(loads, singletonOf(mn))
+		}
+		// singletons whose name several modules share: one load per reachable module that declares
+		// it (the interpreter's host is not told the module, so only the total can be judged there)
+		declared := map[string][]string{}
+		var shared []string
+		for _, mn := range lk.ReachSeq {
+			for _, s := range g.mod(mn).sings() {
+				if declared["$"+s.Name] == nil {
+					shared = append(shared, "$"+s.Name)
+				}
+				declared["$"+s.Name] = append(declared["$"+s.Name], mn)
+			}
+		}
+		for _, s := range shared {
+			mods := declared[s]
+			switch n := loads[s]; {
+			case n < len(mods):
+				v.fail(backend+":init-missing", fmt.Sprintf("%s: singleton %s is declared by the %d modules %v of the program but was loaded %d times", backend, s, len(mods), mods, n), detail)
+			case n > len(mods):
+				v.fail(backend+":init-twice", fmt.Sprintf("%s: singleton %s is declared by the %d modules %v of the program but was loaded %d times", backend, s, len(mods), mods, n), detail)
+			}
+			if len(loadsIn) > 0 {
+				for _, mn := range mods {
+					if n := loadsIn[s+"@"+mn]; n != 1 {
+						v.fail(backend+":init-singleton-module", fmt.Sprintf("%s: singleton %s of module %s was loaded %d times for that module", backend, s, mn, n), detail)
+					}
+				}
+			}
+			delete(loads, s)
 		}
 		for s := range loads {
 			v.fail(backend+":init-foreign", fmt.Sprintf("%s: singleton %s of a module that is not part of the program was loaded", backend, s), detail)
